@@ -190,8 +190,9 @@ int _vnacal_new_solve_simple(vnacal_new_solve_state_t *vnssp,
 			frequency);
 		goto out;
 	    }
-	    (void)memcpy((void *)prev_x_vector, (void *)x_vector,
-		    x_length * sizeof(double complex));
+	    (void)memcpy((void *)&prev_x_vector[offset],
+		    (void *)&x_vector[offset],
+		    unknowns * sizeof(double complex));
 	}
     }
     rv = 0;
